@@ -12,7 +12,8 @@ THEOREMS_C13 = ["Slock.C13T." + t for t in (
     "convert_no_panic_lock", "args2flag_no_panic", "args2flag_missing_value", "args2flag_accepts_valid",
     "set_ex_rejected", "append_px_rejected", "setex_short_rejected", "incr_ex_rejected",
     "convert_no_panic_read", "convert_no_panic_expire", "convert_no_panic_set", "convert_no_panic_setex",
-    "convert_no_panic_incr", "convert_no_panic", "parser_no_panic_on_built")]
+    "convert_no_panic_incr", "convert_no_panic", "parser_no_panic_on_built",
+    "handlers_no_oob", "handlers_registry_seen", "value_readers_total")]
 THEOREMS = THEOREMS_C14 + THEOREMS_C13
 FINISH = {"level": "proof", "assumptions": [
     "MD5 is an opaque function returning 16 bytes in the theorems (the driver's executable MD5 is compared with crypto/md5 byte for byte)",
@@ -81,8 +82,38 @@ def run_text(ctx):
     _run(ctx, ("C14:",), [("Slock.Properties.C14Text", THEOREMS_C14)], ["Slock.Properties.C14Text"])
 
 
+TH_FILES = ["zz_verif_texthandlers_test.go", "zz_verif_engine_test.go", "zz_verif_engine_monitor_test.go", "zz_verif_engine_replay_test.go"]
+
+
+def classify_th(op, impl):
+    t = op.split(" ")
+    if t[0] == "thval":
+        return (t[0], t[1], "panic" if impl == "panic" else "nil" if impl in ("nil", "none") else "value", min(len(t[2]) // 16, 4))
+    if t[0] == "#" and len(t) > 3:
+        return (t[1], t[2], t[3].strip('"').upper()[:12], min(len(t) - 3, 9))
+    return (t[0],)
+
+
+def run_texthandlers(ctx):
+    """the REAL server-side text command handlers / Process() / value readers (harness mode `texthandlers`)"""
+    exe = ctx.build_harness("server", only=TH_FILES)
+    if not exe:
+        return
+    n = 10 if ctx.tier == "quick" else 400
+    outdir = ctx.run_harness(exe, "texthandlers", n, timeout=900)
+    if not outdir:
+        return
+    dis = ctx.diff(outdir, "texthandlers", classify=classify_th)
+    _monitors(ctx, outdir, "texthandlers", ("C13:",))
+    if dis:
+        d = dis[0]
+        ctx.broken.append({"kind": "correspondence", "name": "value-reader model vs real LockResultCommandData readers",
+                           "detail": f"{len(dis)} disagreements; first: op={d[1][:300]} impl={d[2][:300]} model={d[3][:300]}"})
+
+
 def run_text_c13(ctx):
     _run(ctx, ("C13:",), [("Slock.Properties.C13Text", THEOREMS_C13)], ["Slock.Properties.C13Text"])
+    run_texthandlers(ctx)
 
 
 def run(ctx):
